@@ -115,6 +115,10 @@ func builtinsHandle(c map[string]J) map[string]J {
 	var args, iargs, earlier []string
 	var unboundPos []int
 	n := 0
+	if opt("cells") == "1" { // the instantiated list arguments as chains of './2 cells
+		jt.CellLists = true
+		defer func() { jt.CellLists = false }()
+	}
 	for i, a := range pat {
 		if a.([]J)[0] == "v" {
 			unboundPos = append(unboundPos, i)
